@@ -5,10 +5,13 @@ single-flight model and prints the observable state after each burst.
 
   case caching=<0|1> callers=<c,c,..> keys=<k,k,..>          -> ok
   do <item> ...                                              -> en=.. callers=.. keys=.. joined=..
-       item:  c<caller>:<key>:<n>:r<v> | c<caller>:<key>:<n>:e<cls>     call (script used if it starts an execution)
+       item:  c<caller>:<key>:<n>:<o>[:a<arg>]                           call (script used if it starts an execution)
+                 <o> = r<v> returns v | e<cls> raises class cls | k<how> the body ends cancelled (how: ignored)
+                 <key> is the rendered cache key; a<arg> = the argument the key template leaves out (`Act.callWith`)
               x<exec>                                                    the body of <exec> passes a suspension point
               k<caller>                                                  cancel
-  callers=  per declared caller  N | W | R<v> | E<cls> | C
+  callers=  per declared caller  N | W | R<v> | E<cls> | K (CancelledError of an execution that ended cancelled)
+                                 | C (the caller itself was cancelled)
   keys=     per declared key     <key>:<executions in flight>:<bodies running>:<bodies started>:<executions created>
 -/
 open CashewsVerif CashewsVerif.Proto CashewsVerif.SingleFlight
@@ -26,12 +29,17 @@ def parseNats? (s : String) : Option (List Nat) :=
 def parseOutcome? (s : String) : Option Outcome :=
   if s.startsWith "r" then (dropS s 1).toNat?.map Outcome.ret
   else if s.startsWith "e" then (dropS s 1).toNat?.map Outcome.exc
+  else if s.startsWith "k" then (dropS s 1).toNat?.map fun _ => Outcome.cancelled
   else none
 
 def parseItem? (w : String) : Option Act :=
   if w.startsWith "c" then
     match (dropS w 1).splitOn ":" with
     | [c, k, n, o] => do pure (.call (← c.toNat?) (← k.toNat?) (← n.toNat?) (← parseOutcome? o))
+    | [c, k, n, o, a] =>
+      if a.startsWith "a" then do
+        pure (.callWith (← c.toNat?) ⟨← k.toNat?, ← (dropS a 1).toNat?⟩ (← n.toNat?) (← parseOutcome? o))
+      else none
     | _ => none
   else if w.startsWith "x" then (dropS w 1).toNat?.map Act.bodyStep
   else if w.startsWith "k" then (dropS w 1).toNat?.map Act.cancel
@@ -43,6 +51,7 @@ def showCaller (s : SfSt) (c : Nat) : String :=
   | some ⟨_, .waiting⟩ => "W"
   | some ⟨_, .got (.ret v)⟩ => s!"R{v}"
   | some ⟨_, .got (.exc e)⟩ => s!"E{e}"
+  | some ⟨_, .got .cancelled⟩ => "K"
   | some ⟨_, .cancelled⟩ => "C"
 
 def showJoined (s : SfSt) (c : Nat) : String :=
